@@ -18,6 +18,7 @@ func init() { Registry["C08"] = C08 }
 
 func C08(c *Ctx) {
 	r := c.R
+	defer c08ForgottenLease(c)
 	const pkg = "pkg/radius"
 	r.Explain = "Ordering, error-discipline, durability and field-provenance rules on the accounting manager and the RADIUS client: a Stop is persisted before it is attempted; every failed SendAccounting in the manager reaches the retry queue with the same request; where a request lives only in the in-memory queue, no persisted copy of its session (or of the queue) is removed before the queue has been written to disk; queued requests are not mutated afterwards; recovery always reaches the pending-file reload; the Start is sent only after the session is registered; 64-bit counters are split low word / gigaword from the same field; request literals take each identifier and counter from the like-named field.  Crash-point enumeration, retry timing and 'eventually' are not decided."
 	r.Rule("C08.O1.persistBeforeStop", "StopSession marks the session stop-pending and persists it before the first Accounting-Stop attempt", 2)
@@ -28,6 +29,7 @@ func C08(c *Ctx) {
 	r.Rule("C08.O6.requestFields", "every AcctRequest literal takes its identifiers and counters from the like-named field of the session / counters it is built for", 40)
 	r.Rule("C08.O7.queuedRequestImmutable", "a request handed to the retry queue is a per-use allocation that is not written afterwards", 5)
 	r.Rule("C08.O8.recoveryReachesPending", "every non-error path of the recovery routine attempts to reload pending.json", 1)
+	r.Rule("C08.O10.orphanStopBeforeRemove", "crash recovery removes a persisted session file only after it attempted that session's Accounting-Stop (queued on failure), or when the file cannot be decoded", 2)
 	r.Rule("C08.O9.retryBudget", "the retry processor deletes a record only after a successful send or when the retry count reached MaxRetries, and re-schedules it otherwise", 3)
 
 	sp := c.P.SSAPkg(pkg)
@@ -264,10 +266,60 @@ func C08(c *Ctx) {
 	// ---- O8
 	if f := c.fn(pkg, "AccountingManager", "recoverOrphanedSessions"); f != nil {
 		var read ssa.Instruction
+		var readsPending func(g *ssa.Function, depth int) bool
+		readsPending = func(g *ssa.Function, depth int) bool {
+			if g == nil || depth > 2 || len(g.Blocks) == 0 {
+				return false
+			}
+			for _, call := range flow.Calls(g) {
+				if flow.CalleeIs(call, "os", "", "ReadFile") && pathMentions(call.Common().Args[0], "pending.json") {
+					return true
+				}
+				if h := call.Common().StaticCallee(); h != nil && h.Pkg == g.Pkg && h != g && readsPending(h, depth+1) {
+					return true
+				}
+			}
+			return false
+		}
 		for _, call := range flow.Calls(f) {
 			if flow.CalleeIs(call, "os", "", "ReadFile") && pathMentions(call.Common().Args[0], "pending.json") {
 				read = call
+			} else if h := call.Common().StaticCallee(); h != nil && h.Pkg == f.Pkg && readsPending(h, 1) {
+				read = call // the reload lives in a helper
 			}
+		}
+		// ---- O10: an orphaned session's file is removed only after a Stop for it was attempted (and queued on failure)
+		nrm := 0
+		for _, call := range flow.Calls(f) {
+			if !flow.CalleeIs(call, "os", "", "Remove") || pathMentions(call.Common().Args[0], "pending.json") {
+				continue
+			}
+			nrm++
+			okRm := false
+			for _, s := range flow.Calls(f) {
+				if flow.CalleeIs(s, pkg, "Client", "SendAccounting") && flow.InstrDominates(s, call) {
+					okRm = true
+				}
+			}
+			if !okRm {
+				// a file that cannot be read or decoded names no session to stop
+				for _, ft := range flow.FactsAtInstr(call) {
+					if bo, isB := ft.Cond.(*ssa.BinOp); isB {
+						if cc, isC := bo.X.(*ssa.Call); isC {
+							if g := cc.Call.StaticCallee(); g != nil && (g.Name() == "Unmarshal" || g.Name() == "ReadFile") {
+								if k, isK := bo.Y.(*ssa.Const); isK && k.Value == nil && ((bo.Op == token.NEQ && ft.Pol) || (bo.Op == token.EQL && !ft.Pol)) {
+									okRm = true
+								}
+							}
+						}
+					}
+				}
+			}
+			r.Check("C08.O10.orphanStopBeforeRemove", load.ShortFunc(f), "os.Remove(session file) only after SendAccounting(Stop) or for an undecodable file", c.P.Pos(instrPos(call)), okRm,
+				"recovery deletes a persisted session on a path that has not attempted its Accounting-Stop: whatever else is believed to cover it (a queued record of another kind, a cache), the session was started and is now forgotten without a Stop")
+		}
+		if nrm == 0 {
+			r.Check("C08.O10.orphanStopBeforeRemove", load.ShortFunc(f), "session files are removed by recovery", c.P.Pos(f.Pos()), false, "no os.Remove of a session file in the recovery routine")
 		}
 		ok := read != nil
 		why := "no os.ReadFile of pending.json in the recovery routine"
